@@ -34,6 +34,9 @@ def gen(seed, tier):
     # swarm: integer demands, float demands, or both
     mode = rng.choice(["float", "float", "int", "mixed"])
     pool = DEMANDS_F if mode == "float" else DEMANDS_I if mode == "int" else DEMANDS_F + DEMANDS_I
+    inf_supply = rng.random() < 0.05
+    if inf_supply:
+        params["backlog"] = INF  # the lower edge of the window is undefined then, i.e. no limit
     huge = False
     if rng.random() < 0.06:
         # integers beyond 2**53: exact for Python ints, not representable as floats.  Integer
@@ -64,14 +67,14 @@ def gen(seed, tier):
         elif k == "read":
             ops.append(["read"])
         elif k == "supply":
-            ops.append(["supply", rng.choice(SUPPLIES)])
+            ops.append(["supply", rng.choice(SUPPLIES + ([INF, INF, INF] if inf_supply else []))])
         elif k == "outside":
             ops.append(["outside", rng.choice(pool)])
         elif k == "incr":
             ops.append(["incr", rng.randint(1, 12), 1 if huge else rng.choice([1, 1, 1.0])])
         else:
             ops.append(["props", rng.choice([0.0, 0.25, 0.5, 1.0]), rng.choice([0.0, 0.25, 0.5, 1.0])])
-    return {"prop": "C06", "seed": seed, "params": params, "mode": mode, "pool": {"supply": rng.choice(SUPPLIES), "demand": rng.choice(pool), "utilisation": 0.5, "allocation": 0.5}, "ops": ops}
+    return {"prop": "C06", "seed": seed, "params": params, "mode": mode, "pool": {"supply": rng.choice([INF] if inf_supply else SUPPLIES), "demand": rng.choice(pool), "utilisation": 0.5, "allocation": 0.5}, "ops": ops}
 
 
 def F(x):
@@ -83,8 +86,13 @@ def fin(x):
 
 
 def lower_bounds(p, supply):
-    win_lo = -INF if p["backlog"] == INF else F(supply) - F(p["backlog"])
-    win_hi = INF if p["surplus"] == INF else F(supply) + F(p["surplus"])
+    if supply == INF:
+        # an unlimited supply (only generated together with an unlimited backlog): "supply - backlog"
+        # is undefined and imposes nothing, "supply + surplus" is unlimited
+        win_lo, win_hi = -INF, INF
+    else:
+        win_lo = -INF if p["backlog"] == INF else F(supply) - F(p["backlog"])
+        win_hi = INF if p["surplus"] == INF else F(supply) + F(p["surplus"])
     mn = p["minimum"] if not fin(p["minimum"]) else F(p["minimum"])
     mx = p["maximum"] if not fin(p["maximum"]) else F(p["maximum"])
     return win_lo, win_hi, mn, mx
@@ -133,6 +141,9 @@ def run(scenario, tape_values):
         std.demand = v
         f = tpool._demand
         vt = typ(v)
+        if isinstance(f, float) and not math.isfinite(f):
+            V("C06/forwarded-not-finite/%s" % vt, "wrote the finite demand %r, forwarded %r (params %r, supply %r)" % (v, f, p, supply))
+            return
         check_limits("forwarded", f, supply, vt)
         fl = (F(v) / g).__floor__() * g
         if all_limits_ok(F(v), supply) and all_limits_ok(fl, supply) and (p["granularity"] != 1 or F(v).denominator == 1):
